@@ -300,6 +300,7 @@ func (res *Response) ReadFrom(r io.Reader) (n int64, err error) {
 		return 0, nil
 	}
 
+	res.WriteHeader(http.StatusOK)
 	res.hasBody = true
 	res.eoncodeHead()
 	_, err = c.Write(*res.buffer)
